@@ -1020,6 +1020,52 @@ def toStr : Nat → Heap → V → Except Err Bytes
         | .error e => .error e
         | .ok parts => .ok ([123] ++ joinBytes [44] parts ++ [125])
 
+/-! ## look-ups that convert: `has`, `operator()(key) const`, `contains` — the source's switch over the type tag -/
+
+/-- `bool has(const String& k) const`: `_type == OBJ ? _o->has(k) : false` -/
+def hasV (h : Heap) (v : V) (k : Bytes) : Except Err Bool :=
+  match v with
+  | .obj id =>
+    match getB h id with
+    | .error e => .error e
+    | .ok b => match Map.has Map.cmpBytes b.items k with
+      | some r => .ok r
+      | none => .error .oob
+  | _ => .ok false
+
+/-- `Var operator()(const String& k) const` and the value `operator[](const String&) const` designates: the property,
+or `none` (a missing key, or a Var that is not an object) -/
+def getKeyV (h : Heap) (v : V) (k : Bytes) : Except Err V :=
+  match v with
+  | .obj id =>
+    match getB h id with
+    | .error e => .error e
+    | .ok b => match Map.find Map.cmpBytes b.items k with
+      | some r => .ok (r.getD .none)
+      | none => .error .oob
+  | _ => .ok .none
+
+/-- `bool has(const String& k, Type t) const`: `has(k) && (*this)[k].is(t)` -/
+def hasTypeV (h : Heap) (v : V) (k : Bytes) (t : Nat) : Except Err Bool :=
+  match v with
+  | .obj id =>
+    match getB h id with
+    | .error e => .error e
+    | .ok b => match Map.find Map.cmpBytes b.items k with
+      | some (some x) => .ok (isT x t)
+      | some none => .ok false
+      | none => .error .oob
+  | _ => .ok false
+
+/-- `bool contains(const Var& x) const`: `_type == ARRAY ? _a->contains(x) : false` -/
+def containsV (f : Nat) (h : Heap) (v x : V) : Except Err Bool :=
+  match v with
+  | .arr id =>
+    match getB h id with
+    | .error e => .error e
+    | .ok b => containsL f h b.items x
+  | _ => .ok false
+
 /-! ## the operations of a history (one C++ statement each), as run by the driver -/
 
 /-- a typed literal: the argument of a typed constructor / assignment / `operator<<` -/
